@@ -8,6 +8,7 @@ import (
 	"runtime/debug"
 	"sort"
 	"strings"
+	"syscall"
 	"testing"
 	"time"
 
@@ -33,8 +34,13 @@ func violationf(sig, format string, args ...any) outcome {
 var hangLimit = time.Duration(vstat.EnvInt("VERIF_HANG_S", 20)) * time.Second
 
 // guard runs f (a call into the code under test) on its own goroutine, converts a panic into an
-// error string and reports a call that does not return within hangLimit as "HANG: ...".
-func guard(f func()) (panicMsg string) {
+// error string and reports a call that does not return as "HANG: ...". The bound is hangLimit of
+// *CPU time of this process* (a busy machine stretches wall time, not CPU time; one property runs
+// per process), or ten times hangLimit of wall time for a call that is blocked rather than busy.
+func guard(f func()) (panicMsg string) { return guardFor(f, 1) }
+
+// guardFor is guard with the bound multiplied by scale (inputs of megabytes legitimately take seconds).
+func guardFor(f func(), scale int) (panicMsg string) {
 	done := make(chan string, 1)
 	go func() {
 		msg := ""
@@ -58,14 +64,31 @@ func guard(f func()) (panicMsg string) {
 		}()
 		f()
 	}()
-	timer := time.NewTimer(hangLimit)
-	defer timer.Stop()
-	select {
-	case msg := <-done:
-		return msg
-	case <-timer.C:
-		return fmt.Sprintf("HANG: the call did not return within %v", hangLimit)
+	limit := hangLimit * time.Duration(scale)
+	cpu0, wall0 := processCPU(), time.Now()
+	tick := time.NewTicker(250 * time.Millisecond)
+	defer tick.Stop()
+	for {
+		select {
+		case msg := <-done:
+			return msg
+		case <-tick.C:
+			if wall := time.Since(wall0); wall >= limit {
+				if cpu := processCPU() - cpu0; cpu >= limit || wall >= 10*limit {
+					return fmt.Sprintf("HANG: the call did not return within %v of CPU time (%v of wall time)", cpu.Round(time.Second), wall.Round(time.Second))
+				}
+			}
+		}
 	}
+}
+
+// processCPU is the user+system CPU time this process has consumed.
+func processCPU() time.Duration {
+	var ru syscall.Rusage
+	if err := syscall.Getrusage(syscall.RUSAGE_SELF, &ru); err != nil {
+		return 0
+	}
+	return time.Duration(ru.Utime.Nano() + ru.Stime.Nano())
 }
 
 func isHang(msg string) bool { return strings.HasPrefix(msg, "HANG:") }
